@@ -385,6 +385,10 @@ func (in *inst) rewriteSelect(s *ast.SelectStmt) ast.Stmt {
 		sw.Body.List = append(sw.Body.List, &ast.CaseClause{List: []ast.Expr{intLit(idx)}, Body: append(body, cc.Body...)})
 		idx++
 	}
+	// A select whose every branch ends in a terminating statement is itself terminating; keep that property
+	// for the generated switch (a switch without default never is), otherwise "missing return".
+	sw.Body.List = append(sw.Body.List, &ast.CaseClause{List: nil, Body: []ast.Stmt{
+		&ast.ExprStmt{X: call(ast.NewIdent("panic"), &ast.BasicLit{Kind: token.STRING, Value: `"simrt: unreachable select branch"`})}}})
 	args := append([]ast.Expr{st, ast.NewIdent(hasDefault)}, cases...)
 	pre = append(pre, &ast.AssignStmt{Lhs: []ast.Expr{iv, rv, rok}, Tok: token.DEFINE, Rhs: []ast.Expr{call(rt("Select"), args...)}})
 	pre = append(pre, &ast.AssignStmt{Lhs: []ast.Expr{ast.NewIdent("_"), ast.NewIdent("_")}, Tok: token.ASSIGN, Rhs: []ast.Expr{rv, rok}})
